@@ -62,6 +62,8 @@ def gen_case(rng, i=None, shard=0):
         subset |= 64
     entry = rng.choice(['check_strings', 'check_strings', 'string', 'file', 'files'])
     case = {'opts': opts, 'subset': subset, 'entry': entry, 'muts': muts}
+    if entry == 'file' and rng.random() < 0.15:
+        case['names'] = rng.choice([['out.txt', 'ref.pdf'], ['out.pdf', 'ref.pdf'], ['out.dat', 'ref.csv'], ['OUT.TXT', 'ref.PDF'], ['out.csv', 'ref.pdf']])
     if entry == 'check_strings':
         case['actual'], case['expected'] = act, ref
     else:
@@ -100,8 +102,17 @@ def run_case(ctx, case):
             if entry == 'string':
                 r.assertStringCorrect(case['actual_text'], ep, **ro)
             elif entry == 'file':
+                if case.get('names'):
+                    # (both files are decoded by one rule, the one the REFERENCE's name selects: iso-8859-1 for .pdf, else UTF-8)
+                    os.unlink(ep)
+                    ap, ep = os.path.join(d, case['names'][0]), os.path.join(d, case['names'][1])
+                    write(ep, case['expected_text'])
+                    rec.event('files:named_with_different_extensions')
                 write(ap, case['actual_text'])
                 r.assertTextFileCorrect(ap, ep, **ro)
+                if case.get('names'):
+                    for p_ in (ap, ep):
+                        os.unlink(p_)
             else:
                 write(ap, case['actual_text'])
                 aps, eps, pairs = [], [], []
@@ -132,6 +143,15 @@ def run_case(ctx, case):
     rec.event('entry:' + entry)
     # harness-side expectation from the texts themselves
     vs = [textcmp.verdict(a, e, oo) for a, e in pairs]
+    if case.get('names') and case['names'][1].lower().endswith('.pdf'):
+        both = case['actual_text'] + case['expected_text']
+        raw = both.encode('utf-8')
+        optstrings = ''.join(x for k in ('ignore_substrings', 'remove_lines', 'ignore_patterns') for x in (o.get(k) or []))
+        if not raw.isascii() and (any(b in raw for b in (b'\x85', b'\xa0')) or any(ch in both for ch in '\x85\u2028\u2029')
+                                  or o.get('ignore_patterns') or o.get('preprocess') or not optstrings.isascii()):
+            # read as iso-8859-1, a multi-byte character is several other characters: bytes that become line ends or blanks,
+            # Unicode line separators that stop being line ends, and option strings that no longer occur have no set verdict
+            vs = [('unspecified', {'why': 'UTF-8 text read as iso-8859-1 in a way that changes its line structure or the options\' reach'})]
     if any(v == 'fail' for v, _ in vs):
         want = 'fail'
     elif all(v == 'pass' for v, _ in vs):
